@@ -257,7 +257,7 @@ def _signed_blobs(c05, coin, puzzle, scripts, ents, fields_ins_hash, value=5000)
         tx.sign(c05.lookup_of(ents), p2sh_lookup=build_p2sh_lookup(scripts))
     except Exception:  # noqa: BLE001
         return b"", []
-    return tx.txs_in[0].script, list(tx.txs_in[0].witness)
+    return tx.txs_in[0].script or b"", [w for w in tx.txs_in[0].witness if isinstance(w, bytes)]
 
 
 def gen(ctx, emit, c05, pool):
